@@ -118,4 +118,34 @@ Section Steps.
     - unfold gt. by rewrite Hu, orb_true_r.
     - unfold gd. by rewrite Hu.
   Qed.
+  (* registering one more waker keeps what is registered *)
+  Lemma unfreg_reg_mono s e w e' w' : unfreg s e' w' = true ->
+    unfreg (setev s e (getev s e <| wakers := w :: (getev s e).(wakers) |>)) e' w' = true.
+  Proof.
+    unfold unfreg. intros [Hf Hin]%andb_true_iff. apply negb_true_iff in Hf. destruct (decide (e' = e)) as [->|Hne].
+    - rewrite getev_setev_eq by (by apply getev_fired_range). cbn. rewrite Hf. cbn. apply bool_decide_eq_true in Hin.
+      apply bool_decide_eq_true. by right.
+    - unfold getev, setev; cbn. rewrite list_lookup_insert_ne by done. fold (getev s e'). by rewrite Hf, Hin.
+  Qed.
+  (* a future job awaits two unfired events (select): the context waker is registered with both, the poll returns Pending *)
+  Lemma ws_await_either_pending s a op e1 e2 l w k rest : Inv_own s -> Inv_wake s ->
+    stacks s !! a = Some (FJob (JFut op Waiting (PAwaitEither e1 e2 :: l)) w k :: rest) ->
+    (getev s e1).(fired) || (getev s e2).(fired) = false ->
+    let s1 := setev s e1 (getev s e1 <| wakers := w :: (getev s e1).(wakers) |>) in
+    Inv_wake (setstack (setev s1 e2 (getev s1 e2 <| wakers := w :: (getev s1 e2).(wakers) |>)) a
+                (ret_pending k (JFut op Waiting (PAwaitEither e1 e2 :: l)) :: rest)).
+  Proof.
+    intros HO HI Hst [Hf _]%orb_false_iff s1. set (s0 := setev s1 e2 _). set (s' := setstack _ _ _).
+    assert (Hs : stacks s' = <[a := ret_pending k (JFut op Waiting (PAwaitEither e1 e2 :: l)) :: rest]> (stacks s)) by (subst s' s0 s1; solve_stacks).
+    pose proof (top_ok s a _ _ HI Hst) as Hok. cbn in Hok. apply bool_decide_eq_true in Hok. subst w.
+    assert (Hu : unfreg s' e1 (ctxw a k) = true).
+    { subst s' s0. apply (unfreg_reg_mono s1 e2). subst s1. apply (unfreg_register s e1 _ Hf). }
+    split; [|apply queue_ok_owned; apply (runner_owned s a _ HO Hst); cbn; lia].
+    eapply (frames_runner_step' s _ a _ rest _ HO Hst eq_refl Hs).
+    intros fr [->|Hin]%elem_of_cons; [right|by left].
+    destruct k; cbn in *.
+    - unfold gq. by rewrite Hu, orb_true_r.
+    - unfold gt. by rewrite Hu, orb_true_r.
+    - unfold gd. by rewrite Hu.
+  Qed.
 End Steps.
